@@ -23,8 +23,9 @@ Definition tape_svd (tape : list tape_entry) (k : nat) (M : tensor Q) : ans :=
   | None => bad
   end.
 
-Inductive kind := KTT | KTTM | KTR (mode : nat) | KTucker (n_iter : nat).
-Inductive outcome := OErr | OFactors (fs : list (tensor Q)) | OTucker (core : tensor Q) (fs : list (tensor Q)).
+Inductive kind := KTT | KTTM | KTR (mode : nat) | KTucker (n_iter : nat) | KStrict.
+Inductive outcome := OErr | OFactors (fs : list (tensor Q)) | OTucker (core : tensor Q) (fs : list (tensor Q))
+                 | ORanks (strict realised : list nat).
 
 Fixpoint all2 {A} (p : A -> A -> bool) (a b : list A) : bool :=
   match a, b with [], [] => true | x :: a', y :: b' => p x y && all2 p a' b' | _, _ => false end.
@@ -50,6 +51,13 @@ Definition agree (c : case) : bool :=
   | KTucker it => match tucker Qops sv X rank it, out with
                   | Ok (core, fs), OTucker ci fi => qt_close atol rtol core ci && all2 qt_eqb fs fi
                   | Err, OErr => true | _, _ => false end
+  (* validate_tt_rank(shape, rank, allow_overparametrization=False) as the code is (exact), and the ranks tensor_train
+     returned on a tensor of that shape against the closed form realised_tt_rank (exact); only the shape of X is used *)
+  | KStrict => match validate_tt_rank (ndim X) rank, out with
+               | Ok rk, ORanks strict realised =>
+                   all2 Nat.eqb (validate_tt_rank_strict_code (shape X) rk) strict &&
+                   all2 Nat.eqb (realised_tt_rank (shape X) rk) realised
+               | Err, OErr => true | _, _ => false end
   end.
 
 Definition ident (c : case) : nat := let '(i, _, _, _, _, _) := c in i.
